@@ -477,6 +477,50 @@ CLAIMED['C07'] = dict(
         design_ref="DESIGN.md 5 C07",
     )
 
+CLAIMED['C05'] = dict(
+    technique="Coq proof: corollaries of the C01 machine invariant (coq/Proofs/C05.v), tied to the code by the C01 "
+              "differential run and by exhaustive first-evaluation orders on the implementation",
+    text="Proved for EVERY well-formed workbook, EVERY formula meaning that never computes a blank and stored results "
+         "as in C01 (in particular none): C05_order / C05_order_nodata — after ANY two histories consisting only of "
+         "Build/Evaluate operations, in any order, evaluate(n) returns the same value, namely the from-scratch value "
+         "under the workbook's own inputs (first-evaluation / compilation order is irrelevant); C05_repeat — a second "
+         "evaluate of the same node returns the same value and changes neither the cache nor the cell map; C05_path — "
+         "with the concrete range semantics sem_formula (FRange cols), element (i, j) of a range node's value is the "
+         "value evaluate returns for the member cell at that position (asked before or after the range). 4 theorems "
+         "closed under the global context; hypotheses shown satisfiable on a concrete workbook. Oracle-only (not "
+         "modelled): unbounded row/column ranges clipped to the used area, address lists/tuples/generators and "
+         "sheet-less addresses — checked on the implementation for all permutations of first-evaluation order of "
+         "workbooks of 4-6 cells and every enclosing range; the extracted machine is compared on the first orders.",
+    design_ref="DESIGN.md 5 C05",
+)
+
+CLAIMED['C08'] = dict(
+    technique="Coq proof (simulation of the trimmed machine against the from-scratch specification of the original "
+              "workbook, reusing the C01 invariant) over a hand-transcribed model of trim_graph, tied to the code by "
+              "differential runs on generated workbooks x input/output choices x assignment rounds",
+    text="coq/Model/Trim.v transcribes trim_graph (excelcompiler.py 501-576, after repair 3259fa5) on the C01 machine: "
+         "build the outputs, walk_dependents, walk_precedents with evaluate-then-freeze, deletion; the result is a new "
+         "workbook (a frozen cell is an input holding its value) and machine state. Proved for EVERY well-formed "
+         "workbook, EVERY non-blank formula meaning, EVERY state satisfying the C01 invariant, EVERY input/output "
+         "lists: C08_frozen_independent (full) — a frozen cell is not below any input, so its from-scratch value does "
+         "not depend on the inputs; C08_preserve (full for inputs that are input cells feeding the outputs) — after "
+         "the trim, ANY interleaving of set_value on the inputs and evaluate on the outputs returns the from-scratch "
+         "values of the ORIGINAL workbook under the values written so far; C08_preserve_machine — equal to what the "
+         "untrimmed machine returns for the same history (C01 side conditions); C08_preserve_buried_partial — with "
+         "buried inputs (formula cells the trim froze) the trimmed machine returns the from-scratch values of the "
+         "trimmed workbook; missing: the untrimmed side after set_value on a formula cell (correspondence/oracle "
+         "only). The trimmed state does not satisfy C01's invariant (deleted range nodes are read by surviving "
+         "formulas), so coherence is re-proved from a weaker live-region invariant (Proofs/C08Run.v). 4 theorems "
+         "closed under the global context. REFUTED (advisory coq/Refuted/C08_range_input.v, reproduced on the "
+         "implementation, reported as a new finding, inert predicate C08-range-input): an input given as a range "
+         "protects only the dependants of the range node; a formula reading a member cell directly is frozen and "
+         "goes stale. Oracle-only: the save/load leg (yml/json/pkl round trip of the trimmed model; also C03), "
+         "trim before vs after the first evaluate. Correspondence per quick run: ~1400 trims (cells kept, formulas "
+         "removed, all cell values after the trim, outputs of 3 assignment rounds incl. ~770 writes to buried "
+         "formula cells) model = implementation, and the untrimmed machine = untrimmed compiler on the same rounds.",
+    design_ref="DESIGN.md 5 C08",
+)
+
 NOT_YET = "check not built yet in this round (planned: DESIGN.md section 7 lists the build order)"
 
 
